@@ -26,10 +26,20 @@ MOD = "PyMatterSim.utils.coarse_graining"
 RU = "PyMatterSim.reader.reader_utils"
 
 NOT_DECIDED = [
-    "int(period / interval) when the floating-point quotient of an exact multiple lands just below the integer (A1: floats are reals)",
+    "int(period / interval) when the floating-point quotient of an exact multiple lands just below the integer (A1: floats are reals; in the reals int() of a positive quotient is its floor, which is what is proved)",
+    "gaussian_blurring: the step from the proved per-store facts (flat index in range, injective, row-major; stored point = (X_i,Y_j[,Z_k]); loops cover all index tuples) to 'the returned array holds every grid point exactly once in x-slowest order' is the scatter-store lemma (every slot written by exactly one iteration keeps that iteration's value); it is not discharged by SMT for symbolic grid sizes — a BOUNDED run (grids 2x3, 3x2, 4x2, 2x2x3, 3x2x2, one frame, loops unrolled by the engine) checks the returned array itself and is reported under `bounded`",
+    "gaussian_blurring values exactly at |D| == gaussian_cut and at half-cell ties of the minimum image: decided in the reals (strict <), replayed in floats only on an exactly representable tie",
+    "spatial_average / gaussian_blurring on integer-typed property arrays (in-place true division into an int array): outside the documented float inputs",
+    "content of the neighbour file itself (which particles are neighbours): C05; here the file is an arbitrary well-formed neighbour-list file",
 ]
-TRUSTED = []
-
+TRUSTED = [
+    "callee contract of read_neighbors on neighbour-LIST files (contracts/C16.py read_neighbors_contract, to be proved against the real body by C05): returns (nparticle, 1+maxc) int rows [min(cn,Nmax), id-1, .., 0 padding], advances the handle by exactly one record; requires nparticle = particles per record and a record left in the file",
+    "well-formed neighbour file (precondition, instantiated per read): listed counts >= 0, listed ids are particle ids 1..nparticle of the same trajectory, the file has at least as many records as the property has frames",
+    "callee contract of remove_pbc = contracts/C02.pbc_spec_row (proved by C02 against the real body): requires det H != 0 (assumed for every frame) and a 0/1 mask",
+    "assumed library contracts (pyvc/libext/C16.py, pyvc/lib.py): open() returns a handle at record 0; np.linspace(a,b,n)[i] = a + i (b-a)/(n-1) for n >= 2; np.linalg.norm(axis=1) = sqrt of the row sum of squares; boolean-mask selection keeps the selected rows in order, so products of two selections by the SAME mask pair up row by row and their sum is the masked sum; np.prod, np.zeros, np.copy (fresh copy), np.save (file-write event), enumerate, round (half to even), int (truncation)",
+    "loop rule extensions of pyvc/loops.py (closed forms checked by the same init/step obligations): file read positions, conditional accumulation, scatter update with the old content of the written slot, zero-trip merging; the scatter-store nest rule only OVER-approximates the nest (unknown content inside the reachable region) and records the store as a probe",
+    "spec of the central frame for even windows: either of the two middle frames is accepted (|2m - (2n+w-1)| <= 1); for odd windows the unique middle frame n+(w-1)/2",
+]
 
 # ------------------------------------------------------------------------------------------------
 # symbolic trajectories
@@ -63,7 +73,11 @@ def _snapshots(ctx, T, N, d=None, watch=None):
             Hm = [[sv.SV(HM(fz, z3.IntVal(a), z3.IntVal(b))) for b in range(d)] for a in range(d)]
             _file_fact(sv.cmp("!=", A.det_small(Hm, d), 0))
         return new_obj(cls, attrs, frozen=True)
-    lst = Ref(cur().alloc(Content("list", A.SeqVal(T, frame))), "list")
+    if sv.is_conc(T):
+        from pyvc.interp import new_list
+        lst = new_list([frame(f) for f in range(int(T))])
+    else:
+        lst = Ref(cur().alloc(Content("list", A.SeqVal(T, frame))), "list")
     snaps = ctx.obj(RU, "Snapshots", {"nsnapshots": T, "snapshots": lst})
     return snaps, dict(TS=TS, POS=POS, BB=BB, HM=HM)
 
@@ -568,7 +582,7 @@ class GaussianBlurring(Unit):
     module = MOD
     qualname = "gaussian_blurring"
     prop = "C16"
-    timeout = 30
+    timeout = 8         # every obligation of the unchanged function is decided in milliseconds; broken variants must not hang
     summaries = {PBC: remove_pbc_contract}
     solver_opts = {"ext_all": True}
 
@@ -686,7 +700,7 @@ class GaussianBlurring(Unit):
             return sv.ite(sv.cmp("<", r, cut), lambda: sv.mul(gauss_spec(r, sigma), cr(tuple([n, q] + tr))), 0)
         want = Sum(0, N, term)
         yield ("value:sum-over-particles-within-cutoff-of-normalised-gaussian(min-image-distance)*property",
-               sv.implies(rng, sv.cmp("==", GV.get(tuple([n, p] + tr)), want)))
+               sv.implies(rng, sv.cmp("==", GV.get(tuple([n, p] + tr)), want)), {"timeout": 4})
         yield "frame:inputs-not-written", len(_stores(out, inp["watch"])) == 0
         saves = [e for e in out.state.trace if e[0] == "np.save"]
         if inp["outputfile"]:
@@ -720,22 +734,32 @@ def _replay_blur(case, clause, model, seed):
         cands.append(tuple(mg))
     cands += [tuple(g) for g in itertools.product((2, 3), repeat=d)] + [(5, 2), (2, 5), (4, 3)][: 3 if d == 2 else 0] + [(3, 2, 4), (2, 4, 3)][: 2 if d == 3 else 0]
     cands = [g for g in cands if len(g) == d]
+    cands.append("tie")
     for k, ng in enumerate(cands):
         T, N = int(rng.integers(1, 3)), int(rng.integers(1, 6))
         dims = [int(rng.integers(1, 3)) for _ in range(rank)]
         boxes = [(rng.uniform(-2, 2, size=d), rng.uniform(3, 6, size=d)) for _ in range(T)]
+        tie = ng == "tie"
+        if tie:
+            # a particle at distance EXACTLY gaussian_cut (1.5, exact in floats) from the grid point at the lower box corner
+            ng = tuple([2] * d)
+            boxes = [(np.zeros(d), np.ones(d) * 8.0) for _ in range(T)]
         snaps = _mk_snapshots(np, T, N, d, rng, boxes=boxes)
         C = rng.normal(size=[T, N] + dims)
         sigma, cut = float(rng.uniform(0.5, 2.5)), float(rng.uniform(1.0, 4.0))
         ppp = np.array([int(x) for x in rng.integers(0, 2, size=3)])
+        if tie:
+            cut = 1.5
+            for sn in snaps.snapshots:
+                sn.positions[0] = np.array([1.5] + [0.0] * (d - 1))
         keepC = C.copy()
         tried += 1
-        inputs = {"ngrids": list(ng), "T": T, "N": N, "trailing": dims, "sigma": sigma, "gaussian_cut": cut, "ppp": ppp[:d].tolist(),
+        inputs = {"ngrids": list(ng), "T": T, "N": N, "trailing": dims, "exact-tie-at-cutoff": tie, "positions[0][0]": snaps.snapshots[0].positions[0].tolist(), "sigma": sigma, "gaussian_cut": cut, "ppp": ppp[:d].tolist(),
                   "boxbounds[0]": snaps.snapshots[0].boxbounds.tolist()}
         try:
             GP, GV = P.gaussian_blurring(snaps, C, np.array(ng), sigma=sigma, ppp=ppp, gaussian_cut=cut)
         except Exception as e:
-            return {"ran": True, "failed": True, "from_model": k == 0 and cands[0] == tuple(mg), "inputs": inputs,
+            return {"ran": True, "failed": True, "from_model": bool(k == 0 and cands[0] == tuple(mg)), "inputs": inputs,
                     "detail": f"raises {type(e).__name__}: {e}", "searched": tried}
         G = int(np.prod(ng))
         bad = None
@@ -762,8 +786,8 @@ def _replay_blur(case, clause, model, seed):
                     D = GP[n, q] - s.positions[j]
                     D = D - np.rint(D / L) * L * ppp[:d]
                     r = math.sqrt(float(np.dot(D, D)))
-                    if abs(r - cut) < 1e-9:
-                        acc = None
+                    if abs(r - cut) < 1e-9 and r != cut:
+                        acc = None          # too close to the cutoff to decide in floats: this grid point is skipped
                         break
                     if r < cut:
                         acc = acc + math.exp(-r * r / (2 * sigma * sigma)) / math.sqrt(2 * math.pi * sigma * sigma) * keepC[n, j]
@@ -777,9 +801,71 @@ def _replay_blur(case, clause, model, seed):
     return {"ran": True, "failed": False, "searched": tried, "detail": "real code satisfies every clause on the model grid sizes and the seeded inputs"}
 
 
+
+class _BoundedGrid(GaussianBlurring):
+    """BOUNDED stand-in (concrete grid sizes, one frame; loops unrolled by the engine): the array returned after the whole
+    loop nest is the full Cartesian grid in x-slowest order.  Complements the symbolic probe clauses (which hold for all
+    grid sizes but speak about one store) — reported under `bounded`, never counted as proved."""
+    SIZES = ["2x3", "3x2", "4x2", "2x2x3", "3x2x2"]
+
+    def cases(self):
+        return list(self.SIZES)
+
+    def setup(self, ctx, case):
+        ng = [int(x) for x in case.split("x")]
+        d = len(ng)
+        N = ctx.int("N")
+        ctx.assume(N >= 1)
+        watch = []
+        snaps, F = _snapshots(ctx, 1, N, d=d, watch=watch)
+        C = ctx.array("A", (1, N), "float", origin="argument condition")
+        ngrids = A.from_nested(ng, "int")
+        pl = [1, 1, 1]
+        ppp = A.from_nested(pl, "int")
+        sigma, cut = ctx.real("sigma"), ctx.real("cut")
+        ctx.assume(sigma > 0)
+        ctx.assume(cut > 0)
+        return [snaps, C, ngrids], {"sigma": sigma, "ppp": ppp, "gaussian_cut": cut}, dict(ng=ng, d=d, F=F)
+
+    def clause_names(self, case):
+        return ["bounded:returned-grid=full-cartesian-grid-x-slowest"]
+
+    def ensures(self, ctx, case, inp, out):
+        import itertools
+        ng, d, BB = inp["ng"], inp["d"], inp["F"]["BB"]
+        res = out.value
+        if not (isinstance(res, tuple) and isinstance(res[0], A.Arr) and res[0].ndim == 3):
+            yield "bounded:returned-grid=full-cartesian-grid-x-slowest", False
+            return
+        GP = res[0]
+        goals = []
+        for p, tup in enumerate(itertools.product(*[range(g) for g in ng])):
+            for c in range(d):
+                lo_c = sv.SV(BB(z3.IntVal(0), z3.IntVal(c), z3.IntVal(0)))
+                hi_c = sv.SV(BB(z3.IntVal(0), z3.IntVal(c), z3.IntVal(1)))
+                goals.append(sv.cmp("==", GP.get((0, p, c)), sv.add(lo_c, sv.mul(tup[c], sv.div(sv.sub(hi_c, lo_c), ng[c] - 1)))))
+        yield "bounded:returned-grid=full-cartesian-grid-x-slowest", sv.and_(*goals)
+
+
+def extra_checks(tier, seed, repo):
+    from pyvc import vc
+    u = _BoundedGrid()
+    bounded = []
+    for case in u.cases():
+        r = vc.run_unit(u, case, tier)
+        obs = {o["name"].split(":", 1)[1]: o["status"] for o in r.get("obligations", [])}
+        status = obs.get("bounded:returned-grid=full-cartesian-grid-x-slowest", "UNDECIDED")
+        if r.get("error"):
+            status = "UNDECIDED"
+        elif obs.get("safety") != "PROVED" and status == "PROVED":
+            status = "REFUTED" if obs.get("safety") == "REFUTED" else "UNDECIDED"
+        bounded.append({"name": f"gaussian_blurring[bounded grid {case}, T=1]:returned-grid=full-cartesian-grid-x-slowest", "sizes": {"ngrids": case, "T": 1},
+                        "status": status, "safety": obs.get("safety"), "error": r.get("error"), "wall_s": r.get("wall_s")})
+    return {"bounded": bounded}
+
 UNITS = [TimeAverage(), SpatialAverage(), GridGaussian(), GaussianBlurring()]
 
 MANIFEST = {
-    "text": "tbd",
-    "note": "tbd",
+    "text": "time_average, spatial_average, gaussian_blurring (utils/coarse_graining.py) and grid_gaussian (utils/funcs.py), real ASTs re-read every run, symbolic frame number T, particle number N, trailing dimensions, grid sizes n0,n1(,n2) >= 2, window length, Nmax, sigma, cutoff, periodicity mask: (1) time_average returns T-w rows with w = floor(period/((ts1-ts0) dt)), row n = mean of frames n..n+w-1 (float and complex input), and reports the central frame of that window (n+(w-1)/2 for odd w, one of the two middle frames for even w); (2) spatial_average[n,i,..] = (A[n,i,..] + sum over the first min(cn,Nmax) listed neighbours j of A[n,j,..]) / (1 + min(cn,Nmax)) for ranks 0,1,2 (float, complex), with the n-th record of the neighbour file used for frame n (one handle, read_neighbors callee contract), input array not written, saved file = returned array; (3) gaussian_blurring: the store that fills the grid uses a flat index that lies in [0, prod n), is injective on the index tuples, equals the row-major index with x slowest, the loops run over all n0*n1(*n2) tuples, and the stored point is (X_i,Y_j[,Z_k]) with X,Y,Z equally spaced from the lower to the upper box bound of the same frame (2D and 3D, equal or unequal numbers per axis); for every frame n, returned grid point p and trailing index, grid_property = sum over particles q with |D| < cutoff of exp(-|D|^2/(2 sigma^2))/sqrt(2 pi sigma^2) * property[n,q,..], D the minimum image (C02 contract) of grid point minus particle position (scalar, vector, tensor); inputs not written, saved files = returned arrays; (4) grid_gaussian(x, sigma) = exp(-x^2/(2 sigma^2))/sqrt(2 pi sigma^2) elementwise.",
+    "note": "floats as reals (A1); callee contracts of read_neighbors (assumed here, C05) and remove_pbc (C02); well-formed neighbour file and non-singular cells assumed; the passage from the per-store facts to the content of the returned grid array for symbolic grid sizes is the scatter-store lemma (bounded engine runs on 5 small grids check the returned array itself, reported separately); loop summaries are checked by init/step obligations; on the pinned tree before the two fix commits the clauses middle-index (time_average) and flat-index in range / injective / row-major (gaussian_blurring) are REFUTED with failing replays (design_notes/C16.md)",
 }
